@@ -1,5 +1,6 @@
 import Sgz.Model.Window
 import Sgz.Proofs.Writer
+import Sgz.Props.C05
 /-!
 # C11 — converting with a window equals converting the windowed cube
 
@@ -55,9 +56,47 @@ theorem detection_traces (N1 : Nat) (w : Win) (ha : w.a0 < w.a1) (hw : w.b0 < w.
   · have e1 : w.a0 + (w.a1 - w.a0 - 1) = w.a1 - 1 := by omega
     rw [e1]; omega
 
+/-- **axes of the windowed file**: the line axis a reader regenerates from the header words of a windowed conversion is
+the slice `[c0, c1)` of the source axis — so the label of window line `k` is the source's label of line `c0 + k`, the line
+whose samples `window_fill_is_subcube_fill` puts there -/
+theorem window_axis_entry (start step : Int) (c0 c1 k : Nat) (hk : k < c1 - c0) :
+    (windowAxis start step c0 c1)[k]? = some (start + step * ((c0 + k : Nat) : Int)) := by
+  unfold windowAxis axisWords Axes.axis
+  simp only [List.getElem?_map, List.getElem?_range hk, Option.map_some]
+  congr 1
+  rw [Int.natCast_add, Int.mul_add]; omega
+
+theorem window_axis_length (start step : Int) (c0 c1 : Nat) : (windowAxis start step c0 c1).length = c1 - c0 := by
+  simp [windowAxis, axisWords, Axes.axis]
+
+theorem window_axis_is_source_slice (start step : Int) (N c0 c1 : Nat) (h : c1 ≤ N) :
+    windowAxis start step c0 c1 = ((Axes.axis start step N).drop c0).take (c1 - c0) := by
+  apply List.ext_getElem?
+  intro k
+  by_cases hk : k < c1 - c0
+  · rw [window_axis_entry start step c0 c1 k hk, List.getElem?_take_of_lt hk, List.getElem?_drop]
+    unfold Axes.axis
+    rw [List.getElem?_map, List.getElem?_range (by omega)]
+    rfl
+  · rw [List.getElem?_eq_none (by rw [window_axis_length]; omega), List.getElem?_eq_none]
+    rw [List.length_take]; omega
+
+/-- the stored 32-bit words of a windowed axis decode (read unsigned, wrapped by `astype('intc')`) to that slice, for
+every source axis whose windowed labels fit int32 — negative and descending axes included (C05's `axis_roundtrip`) -/
+theorem window_axis_words_roundtrip (start step : Int) (c0 c1 : Nat)
+    (hs : -2147483648 ≤ start + step * (c0 : Int) ∧ start + step * (c0 : Int) < 2147483648)
+    (hd : -2147483648 ≤ step ∧ step < 2147483648)
+    (hall : ∀ k : Nat, k < c1 - c0 → -2147483648 ≤ start + step * (c0 : Int) + step * (k : Int)
+      ∧ start + step * (c0 : Int) + step * (k : Int) < 2147483648) :
+    ∃ su du, Axes.packI32 (axisWords start step c0 c1).2.1 = some su ∧ Axes.packI32 (axisWords start step c0 c1).2.2 = some du
+      ∧ Axes.decodeAxis su du (axisWords start step c0 c1).1 = windowAxis start step c0 c1 :=
+  Sgz.Props.C05.axis_roundtrip _ _ _ hs hd hall
+
 -- non-vacuity: a window starting at ordinal 0 and one in the interior
 example : tStore 10 ⟨0, 3, 0, 4⟩ (startTrace 10 ⟨0, 3, 0, 4⟩ 2 + 3) = 11 := by decide
 example : tStore 10 ⟨2, 5, 3, 7⟩ (startTrace 10 ⟨2, 5, 3, 7⟩ 1 + 2) = 6 := by decide
+example : windowAxis 100 (-2) 3 7 = [94, 92, 90, 88] := by decide
+example : windowAxis (-5) 5 0 3 = ((Axes.axis (-5) 5 9).drop 0).take 3 := by decide
 example : fill ⟨3, 4, 9, 4, 4, 256, 64⟩ ⟨2, 5, 3, 7⟩ 0 3 5 20 = (4, 6, 8) := by decide
 
 end Sgz.Props.C11
